@@ -198,7 +198,7 @@ fn state_bytes_eq(a: &core::mem::MaybeUninit<crate::Serpent>, b: &core::mem::May
     }
     d == 0
 }
-//@ harness name=serpent_short_eq_padded prop=C11 tier=quick bits=260 est=200 desc="Serpent::new_from_slice(&k[..len]) for len symbolic in 16..=31 yields the same round keys as new_from_slice of the explicit 32-byte form k[..len] || 0x01 || 0x00..; all key bytes symbolic; public API only"
+//@ harness name=serpent_short_eq_padded prop=C11,C08 quick=C08 tier=quick bits=260 est=200 desc="Serpent::new_from_slice(&k[..len]) for len symbolic in 16..=31 yields the same round keys as new_from_slice of the explicit 32-byte form k[..len] || 0x01 || 0x00..; all key bytes symbolic; public API only"
 verif_harness! {
     name: serpent_short_eq_padded,
     bytes: 33,
@@ -221,7 +221,7 @@ verif_harness! {
 ''',
     "cast6": r'''
 // ---- C11: a 16/20/24/28-byte CAST-256 key and its zero-padded 32-byte form give the same cipher
-//@ harness name=cast6_short_eq_padded prop=C11 tier=quick bits=258 stub=1 est=60 desc="Cast6::new_from_slice(&k[..len]) for len in {16,20,24,28} (symbolic choice) and new_from_slice of k[..len] zero-padded to 32 bytes hand the key schedule the same 32 bytes (schedule replaced by a stand-in that is injective in them; the schedule itself is C08's subject); all key bytes symbolic"
+//@ harness name=cast6_short_eq_padded prop=C11,C08 quick=C08 tier=quick bits=258 stub=1 est=60 desc="Cast6::new_from_slice(&k[..len]) for len in {16,20,24,28} (symbolic choice) and new_from_slice of k[..len] zero-padded to 32 bytes hand the key schedule the same 32 bytes (schedule replaced by a stand-in that is injective in them; the schedule itself is C08's subject); all key bytes symbolic"
 verif_harness! {
     name: cast6_short_eq_padded,
     bytes: 33,
@@ -262,7 +262,7 @@ pub fn stub_c5_ks_record(c: &mut crate::Cast5, key: &[u8]) {
         i += 1;
     }
 }
-//@ harness name=cast5_short_eq_padded prop=C11 tier=quick bits=136 stub=1 est=60 desc="Cast5::new_from_slice(&k[..len]) for len symbolic in 11..=15 and new_from_slice of k[..len] zero-padded to 16 bytes reach the key schedule with the same 16 bytes and the same round-count flag (schedule replaced by an argument-recording stub); all key bytes symbolic"
+//@ harness name=cast5_short_eq_padded prop=C11,C09 quick=C09 tier=quick bits=136 stub=1 est=60 desc="Cast5::new_from_slice(&k[..len]) for len symbolic in 11..=15 and new_from_slice of k[..len] zero-padded to 16 bytes reach the key schedule with the same 16 bytes and the same round-count flag (schedule replaced by an argument-recording stub); all key bytes symbolic"
 verif_harness! {
     name: cast5_short_eq_padded,
     bytes: 17,
@@ -293,7 +293,7 @@ verif_harness! {
 ''',
     "rc2": r'''
 // ---- C11: Rc2 from a slice == Rc2 with effective key length 8 x len
-//@ harness name=rc2_slice_eq_eff_len prop=C11 tier=quick bits=136 stub=1 est=60 desc="Rc2::new_from_slice(&k[..len]) and Rc2::new_with_eff_key_len(&k[..len], 8*len) call the key expansion with the same key bytes and the same effective length, for len symbolic in 1..=16 (expansion replaced by a stand-in that depends on every key byte, the length and the effective length; the expansion itself is C09's subject); all key bytes symbolic"
+//@ harness name=rc2_slice_eq_eff_len prop=C11,C09 quick=C09 tier=quick bits=136 stub=1 est=60 desc="Rc2::new_from_slice(&k[..len]) and Rc2::new_with_eff_key_len(&k[..len], 8*len) call the key expansion with the same key bytes and the same effective length, for len symbolic in 1..=16 (expansion replaced by a stand-in that depends on every key byte, the length and the effective length; the expansion itself is C09's subject); all key bytes symbolic"
 verif_harness! {
     name: rc2_slice_eq_eff_len,
     bytes: 17,
@@ -468,6 +468,10 @@ def main():
     # C03 (features change no output), constructor side: the key-length / constructor-pair harnesses of C11 are re-run
     # on the zeroize build of every crate (a feature-gated constructor path that drops or alters key bytes fails there)
     lines.append('    "C03": [%s],\n' % ", ".join('("%s+zeroize", ["%s/xcut.rs"], {"include_props": ["C11"]})' % (c, c) for c in crates))
+    # public-API constructor-pair harnesses also count for the conformance properties whose key-padding clause they decide
+    # (they do not name private helpers, so a refactoring of the padding code cannot stop them from compiling)
+    lines.append('    "C08": [("serpent", ["serpent/xcut.rs"]), ("cast6", ["cast6/xcut.rs"])],\n')
+    lines.append('    "C09": [("cast5", ["cast5/xcut.rs"]), ("rc2", ["rc2/xcut.rs"])],\n')
     lines.append("}\n")
     open(os.path.join(VERIF, "lib", "bcv", "plans", "xcut.py"), "w").write("".join(lines))
     print("generated xcut.rs for %d crates, %d types" % (len(crates), len(TYPES)))
